@@ -18,13 +18,14 @@ import (
 // history dependence, and a complete enumeration of short histories does not depend on luck.
 
 type poolCall struct {
-	fn     int
-	a, b   string // texts (document / first argument, second argument)
-	patch  string // patch text for Apply* / Accessors
-	opts   Opts
-	indent string
-	v5only bool
-	corrupt int // > 0: the Patch is a hand-assembled copy with one raw message damaged (never under C04)
+	fn      int
+	a, b    string // texts (document / first argument, second argument)
+	patch   string // patch text for Apply* / Accessors
+	opts    Opts
+	indent  string
+	v5only  bool
+	share   bool // the *ApplyOptions is the one object every call with these option values uses
+	corrupt int  // > 0: the Patch is a hand-assembled copy with one raw message damaged (never under C04)
 }
 
 func ens(o Opts) Opts { o.Ensure = true; return o }
@@ -65,6 +66,10 @@ func histPool() []poolCall {
 		{fn: FnApplyWithOptions, a: d0, patch: padTestNull, opts: ens(Opts{}), v5only: true},
 		{fn: FnApplyWithOptions, a: d1, patch: padCopy, opts: ens(lim), v5only: true},
 		{fn: FnApplyIndentWithOptions, a: `{}`, patch: padQ, opts: ens(Opts{Neg: true}), indent: " ", v5only: true},
+		// one long-lived *ApplyOptions with a copy limit: a call that copies and then fails elsewhere,
+		// and one whose copies fit the limit only if nothing was left over from another call
+		{fn: FnApplyWithOptions, a: d1, patch: `[{"op":"copy","from":"/b","path":"/b2"},{"op":"test","path":"/nope","value":1}]`, opts: lim, share: true, v5only: true},
+		{fn: FnApplyWithOptions, a: d1, patch: `[{"op":"copy","from":"/b","path":"/b2"},{"op":"copy","from":"/b","path":"/b3"}]`, opts: lim, share: true, v5only: true},
 		{fn: FnApply, a: d1, patch: ops},
 		{fn: FnApply, a: d2, patch: ops},
 		{fn: FnApplyIndent, a: d1, patch: ops, indent: "  "},
@@ -125,7 +130,7 @@ func tupleScenario(seed uint64, prop, target string, pool []poolCall, idx []int,
 	sc.Tasks = [][]Call{nil}
 	for _, pi := range idx {
 		pc := pool[pi]
-		c := Call{Fn: pc.fn, Opts: pc.opts, Indent: pc.indent, PrivA: item%3 == 0, PrivB: item%5 == 0}
+		c := Call{Fn: pc.fn, Opts: pc.opts, Indent: pc.indent, PrivA: item%3 == 0, PrivB: item%5 == 0, ShareOpts: pc.share}
 		if target == "legacy" {
 			switch c.Fn {
 			case FnApplyWithOptions:
